@@ -204,6 +204,10 @@ def generate(seed, tier):
             if r.random() < 0.5:
                 r.shuffle(order)
             ops.append(["evalall", e, lid, order])
+            if r.random() < 0.4:
+                e2 = {"ev": nextev, "cached": False, "vars": _gen_vars(r)}
+                nextev += 1
+                ops.append(["evalall2", e2, lid, list(order)])
     nops = r.randint(3, 20)
     for c in range(nops):
         lid, n, wf = r.choice(lists)
@@ -373,9 +377,13 @@ def execute(scenario, open_sigs):
             # inputs -- no wrapper around a wrapper, not to the work-sharing bound
             from pymbolic.mapper.cse_tagger import CSETagMapper, CSEWalkMapper
             walk = CSEWalkMapper()
+            if L["lid"] % 2:
+                # a long-lived walker / tagger pair set up first and fed afterwards
+                tm = CSETagMapper(walk)
             for o in L["orig"]:
                 walk(o)
-            tm = CSETagMapper(walk)
+            if not L["lid"] % 2:
+                tm = CSETagMapper(walk)
             L["tagged2"] = [tm(o) for o in L["orig"]]
             if was:
                 sys.setprofile(obs._prof)
@@ -583,8 +591,9 @@ def execute(scenario, open_sigs):
                                util.digest_of(canon(got[1]))[:10] if got[0] == "ok" else None,
                                len(comps)])
                 continue
-            if k == "evalall":
+            if k in ("evalall", "evalall2"):
                 _, desc, lid, order = op
+                which = "tagged" if k == "evalall" else "tagged2"
                 L = get_list(lid)
                 if L is None or not L["orig"] or desc["ev"] in evs:
                     continue
@@ -600,13 +609,38 @@ def execute(scenario, open_sigs):
                     if j not in idxs:
                         idxs.append(j)
                 for j in idxs:
-                    got, comps = do_eval(e, L["tagged"][j], desc, L["orig"][j], None,
-                                         ["tagged", lid, j])
+                    got, comps = do_eval(e, L[which][j], desc, L["orig"][j], None,
+                                         [which, lid, j])
                     if got[0] != "ok":
                         okall = False
                     allcomps += comps
                     if violation is not None:
                         break
+                if violation is None and okall and L["wf"] and not nv and which == "tagged2":
+                    # the histogram-based tagger wraps exact-tree repeats only and stops at the
+                    # outermost one; what the statement's sharing sentence still implies for it:
+                    # an operation that occurs c >= 2 times is performed fewer than c times
+                    occ = []
+                    for c in L["canon"]:
+                        op_occurrences(c, occ)
+                    from collections import Counter
+                    cin = Counter(jkey(c) for c in occ)
+                    cout = Counter()
+                    for cpt in allcomps:
+                        if cpt.handler.startswith("map_common_subexpression"):
+                            continue
+                        c = canon(cpt.expr, obs.memo)
+                        if _is_op(c):
+                            cout[jkey(erase(c))] += 1
+                    probe("histogram_tagger_bounds_checked")
+                    for key, n in cout.items():
+                        if cin.get(key, 0) >= 2 and n >= cin[key]:
+                            viol("C12/operation-repeated",
+                                 {"tagger": "cse_tagger", "list": lid, "key": key[:400],
+                                  "occurs": cin[key], "computed": n})
+                            break
+                    events.append([opi, k, desc["ev"], lid, len(allcomps)])
+                    continue
                 if violation is None and okall and L["wf"] and not nv:
                     # S2 bound: per deep key, computations <= number of distinct shallow keys
                     occ = []
